@@ -302,8 +302,22 @@ def apply_fault(sess, a):
     elif kind == 'bad_avail_keys':
         utils = {'1': ['beta', 'b0'], '2': ['var', 'c0'], '3': ['beta', 'b1']}
         avs = _bad_avs(salt)
-        ok, engine, e = expect_error(sess, f'availability keys {sorted(avs)} inconsistent with the utilities {sorted(utils)}, via {entry}',
-                                     lambda: run(plant(base, path, ['loglogit', utils, avs, ['var', 'ch']])), survey=survey)
+        if (salt // 6) % 3 == 2:
+            # the same inconsistency handed to a model of the MEV family (nested logit)
+            from biogeme.nests import OneNestForNestedLogit, NestsForNestedLogit
+            from biogeme import models
+
+            def f():
+                fb = ref.Builder(eb.beta_specs(), pool=sess.pool, share_elementary=False)
+                nests = NestsForNestedLogit([1, 2, 3], (OneNestForNestedLogit(ex.Beta('mu_av', 1.5, 1, 10, 0), [1, 2], 'a'),))
+                lp = models.lognested({int(k_): fb.build(v_) for k_, v_ in utils.items()},
+                                      {int(k_): fb.build(v_) for k_, v_ in avs.items()}, nests, ex.Variable('ch'))
+                return lp.get_value_c(database=sess.dbs[dbi], aggregation=True, prepare_ids=True)
+            ok, engine, e = expect_error(sess, f'availability keys {sorted(avs)} inconsistent with the utilities {sorted(utils)}, '
+                                               f'nested logit', f)
+        else:
+            ok, engine, e = expect_error(sess, f'availability keys {sorted(avs)} inconsistent with the utilities {sorted(utils)}, via {entry}',
+                                         lambda: run(plant(base, path, ['loglogit', utils, avs, ['var', 'ch']])), survey=survey)
     elif kind == 'empty_avail':
         utils = {'1': ['beta', 'b0'], '2': ['var', 'c0'], '3': ['beta', 'b1']}
         ok, engine, e = expect_error(sess, f'empty availability dictionary for three utilities, in {where}',
@@ -450,9 +464,14 @@ def apply_fault(sess, a):
             if kind == 'nests_overlap':
                 nests = NestsForNestedLogit([1, 2, 3], (OneNestForNestedLogit(mu1, [1, 2], 'a'),
                                                         OneNestForNestedLogit(mu2, [2, 3], 'b')))
-            else:
+            elif (salt // 4) % 2:
                 nests = NestsForNestedLogit([1, 2, 3], (OneNestForNestedLogit(mu1, [1, 5], 'a'),
                                                         OneNestForNestedLogit(mu2, [2, 3], 'b')))
+            else:
+                # valid when the object is built, an alternative outside the choice set is added to a nest afterwards
+                first_ = OneNestForNestedLogit(mu1, [1], 'a')
+                nests = NestsForNestedLogit([1, 2, 3], (first_, OneNestForNestedLogit(mu2, [2, 3], 'b')))
+                first_.list_of_alternatives.append(5)
             fb = ref.Builder(eb.beta_specs(), pool=sess.pool, share_elementary=False)
             utils = {1: fb.build(['beta', 'b0']), 2: fb.build(['*', ['beta', 'b1'], ['var', 'c0']]), 3: fb.build(['num', 0.0])}
             lp = _nested_entry(salt, utils, nests, ex.Variable('ch'))
